@@ -150,6 +150,22 @@ Proof.
   intros h port b d G Hd. destruct (S2 h port b d G Hd) as (sr & A & B). exists sr. split; [exact A|exact B].
 Qed.
 
+(* At most once over every history: for every send id and destination socket
+   address the datagram is, at any time, in at most one of {in flight, held by
+   that socket, handed to the application} and at most once there.  In
+   particular no (send, socket) pair is ever received twice. *)
+Theorem c09_received_at_most_once : forall n c es,
+  let w := reach n c es in
+  (forall k, (cI w k + cH w k + cR w k <= 1)%nat) /\ NoDup (received w).
+Proof.
+  intros n c es w.
+  destruct (run_inv es (init n c) (wf_init n c) (sound_init n c)) as [_ _].
+  pose proof (run_once es (init n c) (wf_init n c) (sound_init n c) (once_init n c)) as O.
+  split; [exact O|]. apply cnt_le1_NoDup. intros k. specialize (O k). unfold cR in O.
+  change (fst (run (init n c) es)) with w in O.
+  set (a := cI w k) in *. set (b := cH w k) in *. lia.
+Qed.
+
 (* ... and the log is faithful: only an accepted send extends it, with the
    sender's payload, its true source address and exactly the destinations of
    the routes computed in that world (which c09_routes_sound ties to Targets). *)
@@ -222,6 +238,7 @@ Print Assumptions c09_membership_at_send_time.
 Print Assumptions c09_clip.
 Print Assumptions c09_readable_keeps_order.
 Print Assumptions c09_sound.
+Print Assumptions c09_received_at_most_once.
 Print Assumptions c09_sent_log.
 Print Assumptions c09_membership.
 Print Assumptions c09_consts.
